@@ -356,3 +356,39 @@ Proof.
   { cbn. lia. }
   cbn [s0 init_w w_d d_store] in Hsub, Hkeep. split; [exact Hsub|]. intros y Hy. exact (Hkeep y Hy Hy).
 Qed.
+
+(* ================================================================================================ *)
+(* `whole`, eventually, after a pass that failed half way through an expired key                    *)
+(* ================================================================================================ *)
+
+(* A pass in which engine deletes fail (any outcomes, no writers) may leave an expired key half removed - its index gone, a
+   version still stored, the key still readable (C17_conditional_delete_needed). A later fault-free pass whose timeout
+   revision covers what is left removes the key completely: it reads absent and can be created again. (On the real
+   scanner the very next pass usually has timeout revision 0 - the old marks were popped by the failing pass - so the
+   remainder goes with the first pass that comes at least TTL after the failing one; observed with VERIF_C17_FAULT=1.) *)
+Theorem whole_eventually evp R1 tr1 R2 tr2 lo hi V k (os : list outcome) :
+  idx_unique V ->
+  tr2 <> 0 -> is_expirable evp k = true -> bleb lo k && bltb k hi = true ->
+  (forall x, In x V -> rkey x = k -> rec_rev x <= tr2) ->
+  let d1 := compact_range_e evp R1 tr1 lo hi (init_d V (map (fun o => ([], o)) os)) in
+  let d2 := compact_range_e evp R2 tr2 lo hi (init_d (d_store d1) []) in
+  (forall x, In x (d_store d1) -> In x V) /\
+  (forall x, In x (d_store d2) -> rkey x <> k) /\
+  get_at (d_store d2) max_rev k = None /\
+  forall v n, do_create (d_store d2) k v n = (d_store d2 ++ [RIdx k n false; RVer k n v], WOk).
+Proof.
+  intros Hu Htr Hev Hr Hall. cbv zeta.
+  assert (Hsub : forall x, In x (d_store (compact_range_e evp R1 tr1 lo hi (init_d V (map (fun o => ([], o)) os)))) -> In x V).
+  { unfold compact_range_e. change (mkCfg R1 true tr1 0 evp) with (ccfg evp R1 tr1).
+    cbn [init_d d_store d_ghost d_oc d_dead d_trace].
+    set (d0 := mkD V V [] (map (fun o : outcome => ([] : list rec, o)) os) false []).
+    assert (Ha : adds_of (w_d (init_w d0)) = []).
+    { unfold adds_of. cbn [init_w w_d d0 d_oc]. clear. induction os as [|o os IH]; [reflexivity|exact IH]. }
+    destruct (wloop_keeps evp R1 tr1 V Hu (sort_by rec_ltb (filter (in_range lo hi) V)) (init_w d0) Ha) as (_ & K & _).
+    - intros z Hz. exact Hz.
+    - cbn [init_w w_pr]. lia.
+    - exact K. }
+  split; [exact Hsub|].
+  pose proof (expiry_whole evp R2 tr2 lo hi _ k Htr Hev Hr (fun x Hx Hk => Hall x (Hsub x Hx) Hk)) as (H1 & _ & H3 & H4).
+  split; [exact H1|]. split; [exact H3|exact H4].
+Qed.
